@@ -18,6 +18,10 @@ P2 = ("[({($a):1,\"x\":2}|has($b)), ({($a):1,\"x\":2}|.[$b]), ({($a):1,\"x\":2} 
       "([[$a],[$b],[$a]]|index([[$b]])), ([[$a]]|inside([[$b]])), ({($a):1,\"x\":2}|.[$b] = 7|length)]")
 P3 = "[$a<=$b, $b<=$c, $a<=$c, ([$a,$b,$c]|sort) == ([$c,$b,$a]|sort), ([$c,$a,$b]|sort|.[0]<=.[1] and .[1]<=.[2])]"
 P4 = "sort"
+P5 = ("[({($a): {($a): 1, \"y\": 2}, \"x\": 2} | .[$b][$b]), ({\"k\": {($a): 1, \"u\": $c}} == {\"k\": {\"u\": $c, ($b): 1}}), "
+      "([{($a): $c, \"w\": 1}] | index({\"w\": 1, ($b): $c})), ([{\"w\": $c, ($a): 1}, {($b): 1, \"w\": $c}] | unique | length), "
+      "({($a): 1, \"x\": 2} | del(.[$b]) | length), ({($a): 1, \"x\": 2} | .[$b] |= 5 | length), "
+      "({\"x\": 2, ($a): 1} | to_entries | map([.key]) | index([[$b]])), ([[$a, 1]] | contains([[$b]])), ({($a): 1, \"x\": 2} | contains({($b): 1}))]")
 
 
 def unsafe_pair(a, b):
@@ -45,6 +49,28 @@ def gen(ctx):
             b = a
         cases.append(dict(filter=P1, vars=[("a", a), ("b", b)], kind="tree-cmp"))
         cases.append(dict(filter=P2, vars=[("a", a), ("b", b)], kind="tree-key"))
+    # equal values in different representations (numbers, zeros, byte/text strings, permuted objects), also as keys of
+    # objects nested inside keys
+    objs = [O((S("a"), I(1)), (S("b"), I(2))), O((I(1), S("x")), (S("k"), A(I(1))), (NULL, NULL)),
+            O((O((S("a"), I(1)), (S("b"), F(2.0))), I(0)), (S("z"), O((S("p"), I(1)), (S("q"), I(2))))),
+            A(O((S("x"), I(0)), (S("y"), NEG_ZERO))), O((A(I(1), I(2)), TRUE), (F(0.5), FALSE), (S(""), NULL))]
+    bases = [t for t in trees if isinstance(t, list) and t[0] in ("A", "O")] + objs * 6 + pool
+    for _ in range(700 if tier == "quick" else 8000):
+        a = rng.choice(bases)
+        b = variant(rng, a)
+        cases.append(dict(filter=P1, vars=[("a", a), ("b", b)], kind="variant-cmp"))
+        cases.append(dict(filter=P2, vars=[("a", a), ("b", b)], kind="variant-key"))
+        cases.append(dict(filter=P5, vars=[("a", a), ("b", b), ("c", rng.choice(pool))], kind="variant-nested"))
+    # stability and consistency on arrays longer than any small-array fast path
+    classes = [[I(1), F(1.0), B(1), D("1.0"), D("1e0")], [I(0), NEG_ZERO, F(0.0), B(0)], [S("a"), Y("a")], [I(2), F(2.0)],
+               [O((S("a"), I(1)), (S("b"), I(2))), O((S("b"), I(2)), (S("a"), I(1))), O((S("b"), F(2.0)), (S("a"), B(1)))],
+               [NULL], [A(I(1)), A(F(1.0))], [F(0.5)], [I(-3), F(-3.0)]]
+    for _ in range(40 if tier == "quick" else 600):
+        k = rng.randint(33, 90)
+        arr = A(*[rng.choice(rng.choice(classes)) for _ in range(k)])
+        cases.append(dict(filter=rng.choice(["sort", "sort_by(.)", "group_by(.)", "unique", "[min, max]", "sort_by(type)", "unique_by(type)",
+                                             "[min_by(type), max_by(type)]", "group_by(tojson|length)", "sort_by(tojson|length)"]),
+                          inputs=[arr], kind="large-sort"))
     small = [x for x in pool if not (isinstance(x, list) and x[0] in ("I", "B", "F", "D") and (is_big_int_atom(x)))]
     for _ in range(600 if tier == "quick" else 8000):
         a, b, c = rng.choice(small + trees), rng.choice(small + trees), rng.choice(small + trees)
@@ -63,6 +89,10 @@ def oracle(c, impl):
         return None
     vs = dict(c.get("vars", []))
     out = impl[1][0]
+    if c["kind"] == "variant-cmp":
+        lt, le, eq, ne, gt, ge = [x == "true" for x in out[1:]]
+        if not (eq and le and ge and not lt and not gt and not ne):
+            return ("variant-equal", "equal values in different representations do not compare equal: " + sx.dumps(out))
     if c["kind"] in ("pair-cmp", "tree-cmp"):
         if unsafe_pair(vs["a"], vs["b"]):
             return None
@@ -71,7 +101,14 @@ def oracle(c, impl):
             return ("trichotomy", "not exactly one of <, ==, > holds: " + sx.dumps(out))
         if le != (lt or eq) or ge != (gt or eq) or ne == eq:
             return ("derived-ops", "<=, >=, != inconsistent with <, ==, >: " + sx.dumps(out))
-    if c["kind"] in ("pair-key", "tree-key"):
+    if c["kind"] == "variant-nested":
+        want = [["I", "1"], "true", ["I", "0"], ["I", "1"], ["I", "1"], ["I", "2"], None, "true", "true"]
+        for i, w in enumerate(want):
+            if w is not None and out[1 + i] != w:
+                return ("key-interchange:nested%d" % i, "equal values in different representations are not interchangeable (#%d): %s" % (i, sx.dumps(out)))
+        if out[7] == "null":
+            return ("key-interchange:nested6", "key not found among entries: " + sx.dumps(out))
+    if c["kind"] in ("pair-key", "tree-key", "variant-key"):
         a, b = vs["a"], vs["b"]
         if unsafe_pair(a, b):
             return None
